@@ -269,7 +269,7 @@ const NONE: usize = usize::MAX;
 // ------------------------------------------------------------------------------------------
 // next_pkid: function contract, all max_inflight >= 1 (no table involved) — complete
 // ------------------------------------------------------------------------------------------
-// @harness props=C07 tier=quick kind=complete bound="none: all max_inflight >= 1, all last_pkid < max_inflight (loop-free)" fn=v5::MqttState::next_pkid
+// @harness props=C07 tier=quick kind=complete bound="none: all max_inflight >= 1, all last_pkid < max_inflight (loop-free)" fn=v5::MqttState::next_pkid covered_by=cstate5
 #[kani::proof]
 fn v5_next_pkid_contract() {
     // state without tables: next_pkid touches last_pkid / max_inflight only
@@ -307,7 +307,7 @@ fn v5_next_pkid_contract() {
 // ------------------------------------------------------------------------------------------
 // PUBACK
 // ------------------------------------------------------------------------------------------
-// @steps name=v5_puback props=C02,C07,C10,C18 fn=v5::MqttState::handle_incoming_puback call=puback_step ns=quick:1;thorough:1,2
+// @steps name=v5_puback props=C02,C07,C10,C18 fn=v5::MqttState::handle_incoming_puback call=puback_step ns=quick:1;thorough:1,2 covered_by=cstate5
 fn puback_step(n: usize) {
     let mut st = any_state(n, 0);
     let g = ghost(&st);
@@ -360,7 +360,7 @@ fn puback_step(n: usize) {
 // ------------------------------------------------------------------------------------------
 // PUBREC
 // ------------------------------------------------------------------------------------------
-// @steps name=v5_pubrec props=C02,C07,C10,C18 fn=v5::MqttState::handle_incoming_pubrec call=pubrec_step
+// @steps name=v5_pubrec props=C02,C07,C10,C18 fn=v5::MqttState::handle_incoming_pubrec call=pubrec_step covered_by=cstate5
 fn pubrec_step(n: usize) {
     let mut st = any_state(n, 0);
     let g = ghost(&st);
@@ -423,7 +423,7 @@ fn pubrec_step(n: usize) {
 // ------------------------------------------------------------------------------------------
 // PUBCOMP
 // ------------------------------------------------------------------------------------------
-// @steps name=v5_pubcomp props=C02,C07,C10,C18 fn=v5::MqttState::handle_incoming_pubcomp call=pubcomp_step
+// @steps name=v5_pubcomp props=C02,C07,C10,C18 fn=v5::MqttState::handle_incoming_pubcomp call=pubcomp_step covered_by=cstate5
 fn pubcomp_step(n: usize) {
     let mut st = any_state(n, 0);
     let g = ghost(&st);
@@ -476,7 +476,7 @@ fn pubcomp_step(n: usize) {
 // ------------------------------------------------------------------------------------------
 // outgoing publish
 // ------------------------------------------------------------------------------------------
-// @steps name=v5_outgoing_publish props=C02,C07,C10,C18 fn=v5::MqttState::outgoing_publish call=outgoing_publish_step ns=quick:1,2;thorough:1,2,3
+// @steps name=v5_outgoing_publish props=C02,C07,C10,C18 fn=v5::MqttState::outgoing_publish call=outgoing_publish_step ns=quick:1,2;thorough:1,2,3 covered_by=cstate5
 fn outgoing_publish_step(n: usize) {
     let mut st = any_state(n, 0);
     let g = ghost(&st);
@@ -537,7 +537,7 @@ fn outgoing_publish_step(n: usize) {
 // ------------------------------------------------------------------------------------------
 // release replay (outgoing_pubrel / save_pubrel)
 // ------------------------------------------------------------------------------------------
-// @steps name=v5_outgoing_pubrel props=C02,C07 fn=v5::MqttState::outgoing_pubrel call=outgoing_pubrel_step
+// @steps name=v5_outgoing_pubrel props=C02,C07 fn=v5::MqttState::outgoing_pubrel call=outgoing_pubrel_step covered_by=cstate5
 fn outgoing_pubrel_step(n: usize) {
     let mut st = any_state(n, 0);
     let g = ghost(&st);
@@ -604,7 +604,7 @@ fn clean_step(n: usize) {
 // ------------------------------------------------------------------------------------------
 pub const ICAP: usize = 8;
 
-// @harness props=C10 tier=quick kind=bounded bound="incoming QoS2 id table of 8 bits (real: 65536, see v5_new_tables); ids of QoS0/1 publishes full u16; table size max_inflight=1" fn=v5::MqttState::handle_incoming_publish
+// @harness props=C10 tier=quick kind=bounded bound="incoming QoS2 id table of 8 bits (real: 65536, see v5_new_tables); ids of QoS0/1 publishes full u16; table size max_inflight=1" fn=v5::MqttState::handle_incoming_publish covered_by=cstate5
 #[kani::proof]
 #[kani::unwind(@UNWIND@)]
 fn v5_incoming_publish() {
@@ -660,7 +660,7 @@ fn v5_incoming_publish() {
     core::mem::forget(st);
 }
 
-// @harness props=C10 tier=quick kind=bounded bound="incoming QoS2 id table of 8 bits; PUBREL ids full u16 (ids >= 8 are unsolicited)" fn=v5::MqttState::handle_incoming_pubrel
+// @harness props=C10 tier=quick kind=bounded bound="incoming QoS2 id table of 8 bits; PUBREL ids full u16 (ids >= 8 are unsolicited)" fn=v5::MqttState::handle_incoming_pubrel covered_by=cstate5
 #[kani::proof]
 #[kani::unwind(@UNWIND@)]
 fn v5_incoming_pubrel() {
@@ -700,7 +700,7 @@ fn v5_incoming_pubrel() {
     core::mem::forget(st);
 }
 
-// @harness props=C10 tier=quick kind=complete bound="none (loop-free, ids full u16)" fn=v5::MqttState::outgoing_puback+outgoing_pubrec+outgoing_disconnect
+// @harness props=C10 tier=quick kind=complete bound="none (loop-free, ids full u16)" fn=v5::MqttState::outgoing_puback+outgoing_pubrec+outgoing_disconnect covered_by=cstate5
 #[kani::proof]
 #[kani::unwind(@UNWIND@)]
 fn v5_outgoing_acks() {
@@ -738,7 +738,7 @@ fn v5_outgoing_acks() {
 // ------------------------------------------------------------------------------------------
 // subscribe / unsubscribe ids (C07)
 // ------------------------------------------------------------------------------------------
-// @harness props=C07,C10 tier=quick kind=bounded bound="one filter with empty path; table size max_inflight=2; last_pkid full domain under wf" fn=v5::MqttState::outgoing_subscribe+outgoing_unsubscribe
+// @harness props=C07,C10 tier=quick kind=bounded bound="one filter with empty path; table size max_inflight=2; last_pkid full domain under wf" fn=v5::MqttState::outgoing_subscribe+outgoing_unsubscribe covered_by=cstate5
 #[kani::proof]
 #[kani::unwind(@UNWIND@)]
 fn v5_outgoing_sub_unsub() {
@@ -788,7 +788,7 @@ fn v5_outgoing_sub_unsub() {
 // ------------------------------------------------------------------------------------------
 // keep-alive flag protocol (C18, reduced scope: no timing)
 // ------------------------------------------------------------------------------------------
-// @harness props=C18 tier=quick kind=complete bound="none (loop-free; Instant::now stubbed)" fn=v5::MqttState::outgoing_ping+handle_incoming_pingresp
+// @harness props=C18 tier=quick kind=complete bound="none (loop-free; Instant::now stubbed)" fn=v5::MqttState::outgoing_ping+handle_incoming_pingresp covered_by=cstate5
 #[kani::proof]
 #[kani::unwind(@UNWIND@)]
 #[kani::stub(std::time::Instant::now, stub_now)]
@@ -837,7 +837,7 @@ fn v5_ping_protocol() {
 // ------------------------------------------------------------------------------------------
 // CONNACK: receive-maximum negotiated down (C07, v5 only)
 // ------------------------------------------------------------------------------------------
-// @steps name=v5_connack props=C07 fn=v5::MqttState::handle_incoming_connack call=connack_step
+// @steps name=v5_connack props=C07 fn=v5::MqttState::handle_incoming_connack call=connack_step covered_by=cstate5
 fn connack_step(n: usize) {
     let mut st = any_state(n, 0);
     let g = ghost(&st);
